@@ -242,8 +242,12 @@ def gen_transfer(rng, st: GenState, vclass, allow_split=True, kw_level=1):
         if src == dst:
             # conservative in both directions: additions/removals of this op are not credited
             pass
-        if vclass in ("int", "quarter") and a > 0 and r_ >= a and rng.random() < 0.12 and a <= 40 * fr(st.wl["max_volume"]):
-            # drain the source well completely (binary-exact classes only: the float state is exact)
+        mv_ = float(st.wl["max_volume"])
+        if (vclass in ("int", "quarter") and a > 0 and r_ >= a and rng.random() < 0.12 and a <= 40 * fr(st.wl["max_volume"])
+                and (a <= fr(mv_) or (mv_ * 4).is_integer())):
+            # drain the source well completely (binary-exact classes only: the float state is exact; a split
+            # drain needs a binary-exact step limit as well - 7 x 333.3 is not exact, and a refusal of the
+            # last partition by 6e-14 uL would be legitimate float behaviour, not a finding)
             v = float(a)
             uniform = False
         else:
